@@ -90,7 +90,7 @@ func init() {
 				"each rendered per entry template and data set through a recording writer (without a message bundle, with a stub bundle, or with the repository's own PO-file bundle loaded from a generated catalogue); then, exhaustively per case, one run for every write call index k of the fault-free run in four modes (sticky: calls >= k fail; transient: only call k fails; " +
 				"partial: call k accepts half its bytes and fails; fullcount: call k accepts all its bytes and still returns an error) and one run for every byte capacity b in 0..|output| (all b when |output| <= 1024, else all call boundaries +-1 and a seeded sample). " +
 				"Oracle: a failed write implies a non-nil error; bytes accepted up to the first failure are a prefix of the fault-free output; nil implies the whole output was accepted. " +
-				"A case is distinct by (bundle skeleton, entry template, data set, catalogue) and non-trivial if its fault-free run makes at least two write calls.",
+				"A case is distinct by (bundle skeleton, entry template, data set, catalogue) and non-trivial if its fault-free run offers at least two fault points (two write calls, or two bytes of output for the capacity enumeration).",
 			Assumptions: []string{
 				"the fault-free run of the same compiled bundle is the reference output (rendering is deterministic for the generated subset: no randomInt, no keys())",
 				"runs the plain, un-instrumented build: the writer seam is part of soy's API and needs no scheduler",
@@ -119,7 +119,7 @@ func init() {
 				"randomInt and keys() are excluded from generated bundles",
 			},
 			Components: map[string][]string{"real": {"all of robfig/soy: unmodified build and instrumented build of the current working tree"}, "stub": {"io.Writer (fault-injecting)", "soymsg.Bundle (built from the compiled messages)", "vfail function / directive (panics on schedule)"}, "replaced": {}},
-			RequireProbes: []string{"op_render", "op_render-reused", "op_render-writerfault", "op_render-panic", "op_render-illtyped", "op_js", "op_genfile", "op_recompile", "fault_fired_writer", "fault_fired_panic_error", "fault_fired_panic_runtime-error",
+			RequireProbes: []string{"renders_compared_with_output", "op_render", "op_render-reused", "op_render-writerfault", "op_render-panic", "op_render-illtyped", "op_js", "op_genfile", "op_recompile", "fault_fired_writer", "fault_fired_panic_error", "fault_fired_panic_runtime-error",
 				"histories_with_obligatory_directives", "failed_renders"},
 		}
 	})
@@ -178,7 +178,7 @@ func init() {
 				return []string{"GORACE=halt_on_error=0 exitcode=0 log_path=" + filepath.Join(e.Scratch, "race", "r")}
 			},
 			ExtraFn:       func(e *Env) []string { return []string{"-racelog", filepath.Join(e.Scratch, "race", "r")} },
-			RequireProbes: []string{"op_render", "op_render-shared", "op_render-struct", "op_js", "op_compile", "op_parse", "op_with_catalogue", "runs_with_pomsg_bundle", "runs_with_obligatory_directives", "runs_with_logger", "sched_random", "sched_pct", "sched_coarse", "sched_rr"},
+			RequireProbes: []string{"op_render", "op_render-shared", "op_render-struct", "op_js", "op_compile", "op_parse", "completed_render", "completed_render-shared", "completed_render-struct", "completed_js", "completed_compile", "completed_parse", "op_with_catalogue", "runs_with_pomsg_bundle", "runs_with_obligatory_directives", "runs_with_logger", "sched_random", "sched_pct", "sched_coarse", "sched_rr"},
 		}
 	})
 }
@@ -259,7 +259,7 @@ func init() {
 				"render error text is not compared (it embeds stack traces); compile error text is",
 			},
 			Components:    map[string][]string{"real": append(realSoy, "unmodified build in fresh processes for the native cross-check"), "stub": {"soymsg.Bundle"}, "replaced": {"Go's random start offset of map iteration (seeded rotation / permutation at every range-over-map site and reflect.Value.MapKeys)"}},
-			Post:          nativeCrossCheck(3, 12),
+			Post:          nativeCrossCheck(3, 40),
 			RequireProbes: []string{"runs_random_plan", "runs_single_site", "runs_file_order", "map_order_decisions_perturbed", "messages_observed", "js_files_observed", "cases_rejected_by_compiler", "native_units"},
 		}
 	})
@@ -281,7 +281,7 @@ func init() {
 				"an id collision between two different placeholder strings (63-bit fingerprint) is treated as impossible in the sensitivity clause",
 			},
 			Components:    map[string][]string{"real": append(realSoy, "unmodified build in fresh processes for the cross-process clause"), "stub": {}, "replaced": {"Go's map iteration start offset at the range sites of soymsg/placeholder.go and ast/node.go"}},
-			Post:          nativeCrossCheck(3, 20),
+			Post:          nativeCrossCheck(3, 60),
 			RequireProbes: []string{"check_maporder", "check_history", "check_context", "check_sensitivity", "map_order_decisions_perturbed", "messages_with_suffixed_placeholder_names", "native_units"},
 		}
 	})
